@@ -89,10 +89,13 @@ def c09(tier, seed):
     out = []
     k = 0
     # third deployment: vAMMs instantiated *without* an insurance fund (only the owner may open / close them)
-    for coll, feed, nofund in (("cw20", "real", False), ("native", "mock", False), ("cw20", "mock", True)):
+    for coll, feed, nofund in (("cw20", "real", False), ("native", "mock", False), ("cw20", "mock", True), ("cw20", "mock", "samekey")):
         d = dict(base, collateral=coll, feed=feed)
-        if nofund:
+        if nofund is True:
             d = dict(d, vamms=[dict(ifund_none=True), dict(registered=False, ifund_none=True, open=False)])
+        if nofund == "samekey":
+            # one key holds the owner and the pauser role of the engine (the default deployment)
+            d = dict(d, engine=dict(pauser="owner"))
         pre_common = [block(3700), tx("engine", "add_whitelist", "pauser", dict(address="tr2"))]
         for (c, m, a) in variants:
             if c == "fpool" and m == "remove_token":
@@ -108,7 +111,7 @@ def c09(tier, seed):
         transfers = [
             ("vamm1", tx("vamm1", "update_owner", "owner", dict(owner="newowner")), [("vamm1", "update_config", dict(spread=2)), ("vamm1", "set_open", dict(open=False)), ("vamm1", "update_owner", dict(owner="stranger"))]),
             ("vamm2", tx("vamm2", "update_owner", "owner", dict(owner="newowner")), [("vamm2", "set_open", dict(open=True)), ("vamm2", "set_open", dict(open=False))]),
-            ("engine-owner", tx("engine", "update_config", "owner", dict(owner="newowner")), [("engine", "update_config", dict(liqfee=3))]),
+            ("engine-owner", tx("engine", "update_config", "owner", dict(owner="newowner")), [("engine", "update_config", dict(liqfee=3)), ("engine", "set_pause", dict(pause=True)), ("engine", "add_whitelist", dict(address="tr3")), ("engine", "update_pauser", dict(pauser="stranger"))]),
             ("engine-pauser", tx("engine", "update_pauser", "pauser", dict(pauser="newowner")), [("engine", "set_pause", dict(pause=True)), ("engine", "add_whitelist", dict(address="tr3")), ("engine", "update_pauser", dict(pauser="stranger"))]),
             ("ifund", tx("ifund", "update_owner", "owner", dict(owner="newowner")), [("ifund", "add_vamm", dict(vamm="vamm2")), ("ifund", "remove_vamm", dict(vamm="vamm1")), ("ifund", "shutdown_vamms", {})]),
             ("fpool", tx("fpool", "update_owner", "owner", dict(owner="newowner")), [("fpool", "send_token", dict(amount=10, recipient="tr3")), ("fpool", "send_token", dict(amount=10, recipient="newowner")), ("fpool", "send_token", dict(amount=10, recipient="owner")), ("fpool", "remove_token", {})]),
@@ -616,7 +619,11 @@ def c17q(tier, seed):
                         for off in (-1, 0, 1):
                             ops = [block(15), opn("tr1", first, 6000, 100, funds=6000 if native else 0), block(15)]
                             if delta is not None:
-                                ops += [dict(k="flatten", s="tr1", v="vamm1", delta=delta), query("engine", "position", dict(vamm="vamm1", trader="tr1")), block(15)]
+                                # the flattening order itself carries a limit one unit short of / equal to the quote
+                                # (a failed attempt leaves everything as it was), then without limit
+                                ops += [dict(k="flatten", s="tr1", v="vamm1", delta=delta, lim_off=(-1 if first == "buy" else 1)),
+                                        dict(k="flatten", s="tr1", v="vamm1", delta=delta - 4, lim_off=(-1 if first == "buy" else 1)),
+                                        dict(k="flatten", s="tr1", v="vamm1", delta=delta), query("engine", "position", dict(vamm="vamm1", trader="tr1")), block(15)]
                             ops += [dict(k="open_lim", s="tr1", v="vamm1", side=again, margin=1000, leverage=100, off=off, funds=1000 if native else 0),
                                     dict(k="open_lim", s="tr2", v="vamm1", side=again, margin=1000, leverage=100, off=off, funds=1000 if native else 0),
                                     close("tr1"), close("tr2")]
@@ -978,8 +985,8 @@ def c12hi(tier, seed):
     k = 0
     for coll in ("cw20", "native"):
         native = coll == "native"
-        for (toll, spread) in ((60, 70), (100, 100), (50, 100), (100, 0), (0, 100), (33, 67), (99, 2)):
-            for (m, lev) in ((1000, 200), (37, 1000), (3, 100)):
+        for (toll, spread) in ((60, 70), (100, 100), (50, 100), (100, 0), (0, 100), (33, 67), (99, 2), (1, 1), (5, 1), (1, 10)):
+            for (m, lev) in ((1000, 200), (37, 1000), (3, 100), (80, 100), (9, 100)):
                 ff = fee_funds(native, m, lev, toll, spread)
                 fo = (ff - m) if native else 0
                 ops = [block(15), opn("tr1", "buy", m, lev, funds=ff), block(15),
@@ -1131,30 +1138,33 @@ def fundbig(tier, seed):
 
 def fundempty(tier, seed):
     """funding settled while the net position is zero (nobody in the market, or an exactly balanced book) and the
-    premium is not: the cumulative fraction must still advance; positions opened around it are charged from it"""
+    premium is not: the cumulative fraction must still advance; positions opened around it are charged from it -
+    at their next margin withdrawal, or directly at their close"""
     out = []
     k = 0
     for coll in ("cw20", "native"):
         native = coll == "native"
         for off in (48, -48, 240, -120):
             for book in ("empty", "balanced", "dust"):
-                ops = [block(15)]
-                if book == "balanced":
-                    ops += [opn("tr1", "buy", 600, 100, funds=600 if native else 0), opn("tr2", "sell", 600, 100, funds=600 if native else 0),
-                            query("vamm1", "state", {})]
-                elif book == "dust":
-                    ops += [opn("tr1", "buy", 1, 100, funds=1 if native else 0)]
-                ops += [block(3600), dict(k="oracle_rel", v="vamm1", off=off), block(3600),
-                        tx("engine", "pay_funding", "stranger", dict(vamm="vamm1")),
-                        query("engine", "cumulative_premium_fraction", dict(vamm="vamm1")),
-                        opn("tr3", "buy", 500, 200, funds=500 if native else 0), block(3600),
-                        tx("engine", "pay_funding", "liq", dict(vamm="vamm1")),
-                        tx("engine", "withdraw_margin", "tr1", dict(vamm="vamm1", amount=1)),
-                        tx("engine", "withdraw_margin", "tr2", dict(vamm="vamm1", amount=1)),
-                        tx("engine", "withdraw_margin", "tr3", dict(vamm="vamm1", amount=1)),
-                        close("tr1"), close("tr2"), close("tr3")]
-                out.append(dict(id="fundempty-%d" % k, deploy=dep(coll), ops=ops))
-                k += 1
+                for tail in ("withdraw", "close"):
+                    ops = [block(15)]
+                    if book == "balanced":
+                        ops += [opn("tr1", "buy", 600, 100, funds=600 if native else 0), opn("tr2", "sell", 600, 100, funds=600 if native else 0),
+                                query("vamm1", "state", {})]
+                    elif book == "dust":
+                        ops += [opn("tr1", "buy", 1, 100, funds=1 if native else 0)]
+                    ops += [block(3600), dict(k="oracle_rel", v="vamm1", off=off), block(3600),
+                            tx("engine", "pay_funding", "stranger", dict(vamm="vamm1")),
+                            query("engine", "cumulative_premium_fraction", dict(vamm="vamm1"))]
+                    if tail == "withdraw":
+                        ops += [opn("tr3", "buy", 500, 200, funds=500 if native else 0), block(3600),
+                                tx("engine", "pay_funding", "liq", dict(vamm="vamm1")),
+                                tx("engine", "withdraw_margin", "tr1", dict(vamm="vamm1", amount=1)),
+                                tx("engine", "withdraw_margin", "tr2", dict(vamm="vamm1", amount=1)),
+                                tx("engine", "withdraw_margin", "tr3", dict(vamm="vamm1", amount=1))]
+                    ops += [close("tr1"), close("tr2"), close("tr3")]
+                    out.append(dict(id="fundempty-%d" % k, deploy=dep(coll), ops=ops))
+                    k += 1
     return out
 
 def c06t(tier, seed):
@@ -1202,6 +1212,19 @@ def closelim(tier, seed):
                                         block(15), close("tr1", limit=lim), block(15), close("tr1", limit=ok_lim), close("tr2", limit=ok_lim)]
                                 out.append(dict(id="closelim-%d" % k, deploy=dep(coll, oracle=px * 100 // py, engine=dict(plr=plr), vamms=[dict(x=px, y=py, fluct=fl)]), ops=ops))
                                 k += 1
+    # the same with trading fees (a partial close is charged on the slice it trades)
+    for side in ("buy", "sell"):
+        ok_lim = 100 if side == "buy" else 10 ** 7
+        for (toll, spread) in ((5, 10), (10, 0)):
+            for plr in (25, 50):
+                for lim in (0, ok_lim):
+                    ops = []
+                    for _ in range(3):
+                        ops += [block(15), opn("tr1", side, 2007, 100)]
+                    ops += [block(15), close("tr1", limit=lim), query("engine", "position", dict(vamm="vamm1", trader="tr1")),
+                            block(15), close("tr1", limit=lim), block(15), close("tr1"), block(15), close("tr1")]
+                    out.append(dict(id="closelim-%d" % k, deploy=dep("cw20", engine=dict(plr=plr), vamms=[dict(fluct=5, toll=toll, spread=spread)]), ops=ops))
+                    k += 1
     return out
 
 def c04prepaid(tier, seed):
@@ -1256,9 +1279,155 @@ def c05red(tier, seed):
                 k += 1
     return out
 
+
+def liqfees(tier, seed):
+    """liquidations on a vAMM that charges toll and spread (no trading fee may be taken by a liquidation, nobody but
+    sender / engine / fund / pool may move): solvent and insolvent victims, whole and partial, cw20 and native"""
+    out = []
+    k = 0
+    for coll in ("cw20", "native"):
+        native = coll == "native"
+        for (toll, spread) in ((5, 5), (10, 0), (0, 10)):
+            ff = lambda m, lev=1000: fee_funds(native, m, lev, toll, spread)
+            for plr in (0, 25):
+                for liqfee in (1, 5):
+                    for push in (3200, 3800, 4500, 5500, 8000):
+                        for vside in ("buy", "sell"):
+                            pside = "sell" if vside == "buy" else "buy"
+                            ops = [block(15), opn("tr1", vside, 2500, 1000, funds=ff(2500)),
+                                   opn("tr2", pside, push // 10, 1000, funds=ff(push // 10)), block(901),
+                                   query("engine", "margin_ratio", dict(vamm="vamm1", trader="tr1")),
+                                   liq("liq", "tr1"), block(15), liq("tr3", "tr1"), close("tr1"), close("tr2")]
+                            out.append(dict(id="liqfees-%d" % k, deploy=dep(coll, engine=dict(plr=plr, liqfee=liqfee), vamms=[dict(toll=toll, spread=spread)]), ops=ops))
+                            k += 1
+    return out
+
+def c06long(tier, seed):
+    """a busy market: more than 128 trading blocks inside the last 15 minutes before the liquidation, the adverse move
+    older than those blocks but inside the window"""
+    out = []
+    k = 0
+    for vside in ("buy", "sell"):
+        pside = "sell" if vside == "buy" else "buy"
+        for push in (4200, 5000, 5600):
+            for nblk in (135, 200):
+                ops = [block(15), opn("tr1", vside, 1000, 1000), block(600), opn("tr2", pside, push, 100)]
+                for i in range(nblk):
+                    ops += [block(3), opn("tr3" if i % 2 == 0 else "tr2", "buy" if i % 2 == 0 else "sell", 20, 100)]
+                ops += [dict(k="oracle_rel", v="vamm1", off=0, interval=1),
+                        query("engine", "margin_ratio", dict(vamm="vamm1", trader="tr1")), liq("liq", "tr1"),
+                        query("vamm1", "twap_price", dict(interval=900)), query("vamm1", "output_twap", dict(dir="add", amount=100))]
+                out.append(dict(id="c06long-%d" % k, deploy=dep("cw20", engine=dict(plr=0)), ops=ops))
+                k += 1
+    return out
+
+def c02tw(tier, seed):
+    """an opposite order whose notional lies between the spot value and the (lagging) TWAP value of the position -
+    reduce or reverse is decided on the spot value - then every later trade on the position"""
+    out = []
+    k = 0
+    for coll in ("cw20", "native"):
+        native = coll == "native"
+        for side in ("buy", "sell"):
+            osd = "sell" if side == "buy" else "buy"
+            for push in (2000, 4000):
+                for delta in (-600, -200, -1, 0, 1, 150, 400, 900, 1500):
+                    for tail in ("close", "liquidate", "reverse"):
+                        ops = [block(15), opn("tr1", side, 6000, 100, funds=6000 if native else 0), block(1000),
+                               opn("tr2", osd, push, 100, funds=push if native else 0),
+                               dict(k="flatten", s="tr1", v="vamm1", delta=delta, funds=(6000 + max(delta, 0)) if native else 0),
+                               query("engine", "position", dict(vamm="vamm1", trader="tr1")), block(15)]
+                        if tail == "close":
+                            ops += [close("tr1")]
+                        elif tail == "liquidate":
+                            ops += [liq("liq", "tr1"), close("tr1")]
+                        else:
+                            ops += [opn("tr1", side, 3000, 100, funds=3000 if native else 0), close("tr1")]
+                        ops += [close("tr2")]
+                        out.append(dict(id="c02tw-%d" % k, deploy=dep(coll), ops=ops))
+                        k += 1
+    return out
+
+def wdrel(tier, seed):
+    """WithdrawMargin of exactly the free collateral, one unit more, and free collateral + funding owed, for positions
+    in profit / at a loss with funding owed / receivable"""
+    out = []
+    k = 0
+    day = 86400
+    for coll in ("cw20", "native"):
+        native = coll == "native"
+        for side in ("buy", "sell"):
+            for fav in (True, False):
+                for off in (-30, 30, 0):
+                    pside = side if fav else ("sell" if side == "buy" else "buy")
+                    for woff in (0, 1, 20, 40, -1):
+                        ops = [block(15), opn("tr1", side, 6000, 1000, funds=6000 if native else 0), block(15),
+                               opn("tr2", pside, 2000, 1000, funds=2000 if native else 0), block(3601)]
+                        if off:
+                            ops += [dict(k="oracle_rel", v="vamm1", off=off), block(day),
+                                    tx("engine", "pay_funding", "stranger", dict(vamm="vamm1"))]
+                        ops += [query("engine", "free_collateral", dict(vamm="vamm1", trader="tr1")),
+                                dict(k="withdraw_rel", s="tr1", v="vamm1", off=woff),
+                                query("engine", "free_collateral", dict(vamm="vamm1", trader="tr1")), close("tr1"), close("tr2")]
+                        out.append(dict(id="wdrel-%d" % k, deploy=dep(coll, vamms=[dict(period=day)]), ops=ops))
+                        k += 1
+    return out
+
+
+def c15fund(tier, seed):
+    """a trade, a funding settlement and further trades inside one block, next to the band edge (the settlement
+    must not re-centre the band); and a settlement as the first action of the block"""
+    out = []
+    k = 0
+    for fl in (5, 2):
+        sc = 1 if fl == 5 else 0.4
+        for side in ("buy", "sell"):
+            for (a1, a2, a3) in ((1000, 2000, 2000), (500, 2300, 600), (100, 2400, 2400)):
+                a1, a2, a3 = int(a1 * sc), int(a2 * sc), int(a3 * sc)
+                for order in (0, 1, 2):
+                    pf = tx("engine", "pay_funding", "stranger", dict(vamm="vamm1"))
+                    mid = [opn("tr2", side, a2, 100), pf, opn("tr1", side, a3, 100), opn("tr3", side, a3, 100)] if order == 0 else \
+                          [pf, opn("tr2", side, a2, 100), opn("tr1", side, a3, 100), opn("tr3", side, a3, 100)] if order == 1 else \
+                          [opn("tr2", side, a2, 100), opn("tr1", side, a3 // 3, 100), pf, pf, opn("tr3", side, a3, 100), close("tr1")]
+                    ops = [block(15), opn("tr1", side, a1, 100), block(3700)] + mid + [
+                           query("vamm1", "twap_price", dict(interval=900)), block(15), opn("tr2", side, a2, 100), close("tr2")]
+                    out.append(dict(id="c15f-%d" % k, deploy=dep("cw20", engine=dict(plr=25), vamms=[dict(fluct=fl)]), ops=ops))
+                    k += 1
+    return out
+
+def c16pc(tier, seed):
+    """a ClosePosition turned into a partial close by the price band, in a block in which somebody else is liquidated:
+    the partially closed trader acts again in that block"""
+    out = []
+    k = 0
+    for coll in ("cw20", "native"):
+        native = coll == "native"
+        for plr in (25, 50):
+            for order in (0, 1):
+                for second in ("close", "open_same", "open_opp"):
+                    ops = underwater_prefix(native) + [tx("vamm1", "update_config", "owner", dict(fluct=5)), block(15)]
+                    # tr3 builds a short over three blocks (each inside the 5 % band, and each pushing tr1 further under
+                    # water); closing it whole would cross the band
+                    for _ in range(3):
+                        ops += [opn("tr3", "sell", 1300, 100, funds=1300 if native else 0), block(15)]
+                    l = liq("liq", "tr1")
+                    c = close("tr3")
+                    ops += [l, c] if order == 0 else [c, l]
+                    ops += [query("engine", "position", dict(vamm="vamm1", trader="tr3"))]
+                    if second == "close":
+                        ops += [close("tr3")]
+                    elif second == "open_same":
+                        ops += [opn("tr3", "sell", 100, 100, funds=100 if native else 0)]
+                    else:
+                        ops += [opn("tr3", "buy", 100, 100)]
+                    ops += [block(15), close("tr3"), block(15), close("tr3"), block(15), close("tr3")]
+                    out.append(dict(id="c16pc-%d" % k, deploy=dep(coll, engine=dict(plr=plr)), ops=ops))
+                    k += 1
+    return out
+
 FAMILIES = ["c02lp", "c04", "c04r", "c04p", "c05", "c06", "c06f", "c07", "c08", "c10", "c16", "c17", "c03",
             "zsr", "zsrliq", "attached", "fundzero", "c07edge", "c14f", "c12hi", "c15sub", "selfliq", "c13flat",
-            "dustliq", "fundbig", "fundempty", "c06t", "closelim", "c17q", "c04prepaid", "c05red"]
+            "dustliq", "fundbig", "fundempty", "c06t", "closelim", "c17q", "c04prepaid", "c05red", "liqfees", "c02tw", "wdrel", "c15fund", "c16pc"]
 
 def pool(tier, seed, cap=200, exclude=(), only_cw20=False):
     """a seeded sample across ALL scenario families: every engine property is also judged on the inputs that
@@ -1299,25 +1468,26 @@ def for_property(pid, tier, seed):
         out = [("c08sweeps", c08(tier, seed)), ("c06liq", c06(tier, seed)), ("c07vault", c07(tier, seed)),
                ("selfliq", selfliq(tier, seed)), ("attached", attached(tier, seed)), ("zsrliq", zsrliq(tier, seed)), ("closelim", closelim(tier, seed))]
     if pid == "C16":
-        out = [("c16orderings", c16(tier, seed)), ("c06liq", c06(tier, seed)), ("zsrliq", zsrliq(tier, seed)), ("selfliq", selfliq(tier, seed))]
+        out = [("c16orderings", c16(tier, seed)), ("c06liq", c06(tier, seed)), ("zsrliq", zsrliq(tier, seed)), ("selfliq", selfliq(tier, seed)), ("c16pc", c16pc(tier, seed))]
     if pid == "C03":
         out = [("c03fpool", c03(tier, seed)), ("c08sweeps", c08(tier, seed)), ("attached", attached(tier, seed)),
-               ("selfliq", selfliq(tier, seed)), ("c12hi", c12hi(tier, seed)), ("dustliq", dustliq(tier, seed))]
+               ("selfliq", selfliq(tier, seed)), ("c12hi", c12hi(tier, seed)), ("dustliq", dustliq(tier, seed)), ("liqfees", liqfees(tier, seed))]
     if pid == "C05":
         out = [("c05lev", c05(tier, seed)), ("c08sweeps", c08(tier, seed)), ("attached", attached(tier, seed)), ("fundzero", fundzero(tier, seed)),
-               ("c05reduce", c05red(tier, seed)), ("fundbig", fundbig(tier, seed))]
+               ("c05reduce", c05red(tier, seed)), ("fundbig", fundbig(tier, seed)), ("wdrel", wdrel(tier, seed))]
     if pid in ("C02", "C06", "C07"):
         out = [("c02lowprice", c02lp(tier, seed)), ("c06funding", c06f(tier, seed)), ("c04funding", c04(tier, seed)), ("c06liq", c06(tier, seed)),
                ("c07vault", c07(tier, seed)), ("c08sweeps", c08(tier, seed)), ("c16orderings", c16(tier, seed)),
                ("zsr", samp(zsr(tier, seed), n, seed)), ("zsrliq", zsrliq(tier, seed)), ("selfliq", selfliq(tier, seed)), ("c07edge", c07edge(tier, seed)),
-               ("dustliq", dustliq(tier, seed)), ("c06t", c06t(tier, seed)), ("closelim", samp(closelim(tier, seed), n, seed))]
+               ("dustliq", dustliq(tier, seed)), ("c06t", c06t(tier, seed)), ("closelim", samp(closelim(tier, seed), n, seed)),
+               ("liqfees", samp(liqfees(tier, seed), n, seed)), ("c02tw", samp(c02tw(tier, seed), n, seed))] + ([("c06long", c06long(tier, seed))] if pid in ("C06", "C07") else [])
     if pid == "C10":
         out = [("c10alias", c10(tier, seed)), ("c08sweeps", c08(tier, seed)), ("c16orderings", c16(tier, seed)), ("c07vault", c07(tier, seed)),
                ("zsrliq", zsrliq(tier, seed)), ("zsr", samp(zsr(tier, seed), n // 2, seed))]
     if pid in ("C12", "C04"):
         out = [("c04reverse", c04r(tier, seed)), ("c04partial", c04p(tier, seed)), ("c04funding", c04(tier, seed)), ("c08sweeps", c08(tier, seed)),
                ("c16orderings", c16(tier, seed)), ("c07vault", c07(tier, seed)), ("c12hi", c12hi(tier, seed)), ("fundzero", fundzero(tier, seed)),
-               ("zsr", samp(zsr(tier, seed), n // 2, seed)), ("fundbig", fundbig(tier, seed)), ("c03ptr", c03(tier, seed)), ("c04prepaid", c04prepaid(tier, seed)),
+               ("zsr", samp(zsr(tier, seed), n // 2, seed)), ("fundbig", fundbig(tier, seed)), ("c03ptr", c03(tier, seed)), ("c04prepaid", c04prepaid(tier, seed)), ("fundempty", fundempty(tier, seed)), ("liqfees", samp(liqfees(tier, seed), n // 2, seed)),
                ("closelim", samp(closelim(tier, seed), n // 2, seed))]
     if pid == "C17":
         out = [("c17stale", c17(tier, seed)), ("closelim", closelim(tier, seed)), ("c17quote", c17q(tier, seed))]
@@ -1325,9 +1495,9 @@ def for_property(pid, tier, seed):
         out = [("c04partial", c04p(tier, seed)), ("c04funding", c04(tier, seed)), ("c06funding", c06f(tier, seed)), ("fundzero", fundzero(tier, seed)),
                ("c18long", c18long(tier, seed)[-1:]), ("fundempty", fundempty(tier, seed)), ("fundbig", fundbig(tier, seed))]
     if pid == "C15":
-        out = [("c15sub", c15sub(tier, seed)), ("c07edge", c07edge(tier, seed)), ("closelim", closelim(tier, seed))]
+        out = [("c15sub", c15sub(tier, seed)), ("c07edge", c07edge(tier, seed)), ("closelim", closelim(tier, seed)), ("c15fund", c15fund(tier, seed))]
     if pid == "C18":
-        out = [("c18long", c18long(tier, seed)), ("c15sub", c15sub(tier, seed))]
+        out = [("c18long", c18long(tier, seed)), ("c15sub", c15sub(tier, seed)), ("c15fund", c15fund(tier, seed))]
     if pid in ENGINE_PROPS:
         # every engine property is also judged on a sample of all other families
         out.append(("pool", pool(tier, seed, cap=220 if q else 4000)))
